@@ -87,7 +87,7 @@ func (x *gg) val(vars bool) *rt.Term {
 }
 
 func (x *gg) head(vars bool) *rt.Term {
-	if x.n(0, 9, "z") == 9 { // a predicate without arguments: all its facts are the same term
+	if x.n(0, 6, "z") == 6 { // a predicate without arguments: all its facts are the same term
 		return rt.A("z")
 	}
 	if x.p(70, "d") {
@@ -117,6 +117,12 @@ func (x *gg) clauseTerm() *rt.Term {
 }
 
 func (x *gg) goal() *rt.Term {
+	if x.n(0, 13, "openretract") == 13 {
+		// an open retract/1 whose further snapshot clauses are removed by a second retract/1, then a new clause of the
+		// same form is added: the outer retract must not take the new clause for one of its own
+		h := x.head(false)
+		return gen.Conj([]*rt.Term{rt.C("retract", h), rt.C("retract", rt.C(":-", h, x.v())), rt.C([]string{"asserta", "assertz"}[x.n(0, 1, "az")], h)})
+	}
 	switch k := x.n(0, 19, "goal"); {
 	case k < 4:
 		return x.head(true) // call
